@@ -849,6 +849,55 @@ class TxGen:
         return getattr(self, self.rng.choice(names))()
 
 
+class AppObserverError(Exception):
+    """raised by the generator's application observer of a provider observable"""
+
+
+class ProviderObservers:
+    """Application observers bound to the provider mdib's *_by_handle observables (what an application may do with them):
+    some firings raise an exception, some modify the containers they receive."""
+    NAMES = ('metrics_by_handle', 'alert_by_handle', 'component_by_handle', 'context_by_handle', 'operation_by_handle',
+             'waveform_by_handle', 'new_descriptors_by_handle', 'updated_descriptors_by_handle')
+    # not observed: deleted_descriptors_by_handle / deleted_states_by_handle. MdibBase.rm_descriptors_and_states sets them from
+    # INSIDE the commit (with the table objects): an observer that raises there aborts the commit half-way (MdibVersion
+    # incremented, descriptor removed, no report) - atomicity of the commit (C03), not a committed transaction any more.
+
+    def __init__(self, mdib, rng, p_raise=0.25, p_modify=0.5):
+        from sdc11073 import observableproperties as props
+        self.mdib, self.rng, self.p_raise, self.p_modify = mdib, rng, p_raise, p_modify
+        self.props = props
+        self.stats = {'raised': 0, 'modified': 0}
+        self.cbs = {n: self._mk(n) for n in self.NAMES}
+        for n, cb in self.cbs.items():
+            props.strongbind(mdib, **{n: cb})
+
+    def _mk(self, name):
+        def cb(value):
+            if not isinstance(value, dict) or not value:
+                return
+            x = self.rng.random()
+            if x < self.p_modify:
+                self.stats['modified'] += 1
+                for c in value.values():
+                    # an application that "works" on what it got
+                    for attr, v in (('StateVersion', 4711), ('DescriptorVersion', 4712), ('ActivationState', None),
+                                    ('MetricValue', None), ('Presence', None), ('ContextAssociation', None),
+                                    ('OperatingHours', 1), ('SafetyClassification', None)):
+                        if hasattr(c, attr):
+                            try:
+                                setattr(c, attr, v)
+                            except Exception:  # noqa: BLE001
+                                pass
+            if x > 1 - self.p_raise:
+                self.stats['raised'] += 1
+                raise AppObserverError(name)
+        return cb
+
+    def unbind(self):
+        for n, cb in self.cbs.items():
+            self.props.unbind(self.mdib, **{n: cb})
+
+
 class HistoryRecorder:
     """Runs transactions on the real provider and records wire messages, Get answers and provider snapshots."""
 
@@ -934,8 +983,19 @@ class HistoryRecorder:
         """fn() performs one committed provider transaction and returns a description"""
         p = self.w.provider
         h = self.hist
+        box = {}
+
+        def run():
+            box['desc'] = fn()
         try:
-            desc = fn()
+            try:
+                run()
+                desc = box['desc']
+            except AppObserverError as ex:
+                # an application observer of a provider observable raised: the transaction is committed nevertheless
+                desc = f'observer-raised {ex} ' + str(box.get('desc', ''))
+                if self.count:
+                    self.count('provider-observer-raised')
         except Exception as ex:  # noqa: BLE001   (generator bug or provider defect: report, do not hide)
             raise RuntimeError(f'transaction generator failed: {ex!r}\n{traceback.format_exc()[-1500:]}') from ex
         if p.capture_errors:
@@ -966,7 +1026,21 @@ def gen_history(world: World, rng, n_tx: int, n_captures: int = 3, epochs: bool 
                 record_cores=False) -> History:
     """Run `n_tx` random transactions on the real provider; capture wire messages, Get answers, provider snapshots."""
     gen = TxGen(world, rng)
+    # InstanceId of the provider: a number, 0 or absent
+    world.provider.mdib.instance_id = rng.choice([1, 0, None, 7, world.provider.mdib.instance_id])
     rec = HistoryRecorder(world, count, ctx_in_getmdib=rng.random() < 0.6, record_cores=record_cores)
+    observers = ProviderObservers(world.provider.mdib, rng) if rng.random() < 0.35 else None
+    try:
+        return _gen_history(world, rng, n_tx, n_captures, epochs, gen, rec)
+    finally:
+        if observers is not None:
+            observers.unbind()
+            if count:
+                count('history-with-provider-observers')
+                count('provider-observer-modified', observers.stats['modified'])
+
+
+def _gen_history(world, rng, n_tx, n_captures, epochs, gen, rec):
     capture_at = set(rng.sample(range(n_tx), min(n_tx, n_captures)))
     # epoch changes (new SequenceId / InstanceId as after a provider restart) in some histories
     epoch_at = {}
@@ -2476,7 +2550,48 @@ def scenario_inflight_burst(world, rng):
     return rec.hist, sched
 
 
-SCENARIOS_BURST = (scenario_inflight_burst,)
+def scenario_instance_ids(world, rng):
+    """provider InstanceId 0, absent, 7: the version group of the reports has to equal the one of the Get answers; the
+    consumer follows after a load in each epoch"""
+    gen = TxGen(world, rng)
+    mdib = world.mdib
+    keep = mdib.instance_id
+    mdib.instance_id = 0
+    rec = HistoryRecorder(world)
+    sched = [('reload', 0, 0, [])]
+    try:
+        w = rec.tx(gen.tx_metric) + rec.tx(gen.tx_alert) + rec.tx(gen.tx_descr_update)
+        sched += [('deliver', i) for i in w]
+        for inst in (None, 7):
+            mdib.instance_id = inst
+            rec.epoch += 1
+            rec.hist.epoch_start[rec.n_tx] = 'inst'
+            c = rec.capture()
+            w = rec.tx(gen.tx_metric) + rec.tx(gen.tx_context_new)
+            sched += [('deliver', w[0]), ('reload', c, c, [])] + [('deliver', i) for i in w]
+    finally:
+        mdib.instance_id = keep
+    return rec.hist, sched
+
+
+def scenario_provider_observers(world, rng):
+    """application observers on the provider's *_by_handle observables that raise / modify what they get: the transaction
+    is committed, its reports are sent and say what the provider tables say"""
+    gen = TxGen(world, rng)
+    rec = HistoryRecorder(world)
+    w = []
+    for p_raise, p_modify in ((1.0, 0.0), (0.0, 1.0), (0.5, 1.0)):
+        obs = ProviderObservers(world.mdib, rng, p_raise=p_raise, p_modify=p_modify)
+        try:
+            for name in ('tx_metric', 'tx_alert', 'tx_component', 'tx_context_new', 'tx_operational', 'tx_descr_update'):
+                w += rec.tx(getattr(gen, name))
+        finally:
+            obs.unbind()
+    w += rec.tx(gen.tx_metric)
+    return rec.hist, [('reload', 0, 0, [])] + [('deliver', i) for i in w]
+
+
+SCENARIOS_BURST = (scenario_inflight_burst, scenario_instance_ids, scenario_provider_observers)
 SCENARIOS_TWO_MDS = (scenario_two_mds_interleaved,)
 SCENARIO_SETS = {'main': (False, 'SCENARIOS'), 'two_mds': (True, 'SCENARIOS_TWO_MDS'), 'burst': (False, 'SCENARIOS_BURST')}
 
